@@ -556,7 +556,8 @@ impl Ctx {
         let _ = std::fs::create_dir_all(&dir);
         let mode = if self.replay.is_some() { "replay" } else { "run" };
         if mode == "run" {
-            let path = dir.join(format!("{}.{}.json", self.id, self.variant));
+            let suffix = std::env::var("PV_PART_SUFFIX").unwrap_or_default();
+            let path = dir.join(format!("{}.{}{}.json", self.id, self.variant, suffix));
             std::fs::write(&path, serde_json::to_string_pretty(&ev).unwrap()).expect("write evidence part");
         }
         if self.violations.is_empty() {
